@@ -1,10 +1,10 @@
 #!/bin/sh
 # seedimport.sh <PROP> <n> <worktree> : verify and import a seeded change into /verif/seeded/<PROP>-<n>/
-prop=$1; n=$2; wt=$3
+prop=$1; n=$2; wt=$3; outn=${4:-$2}
 out=$(/verif/tools/seedverify.sh "$wt" "$n" 2>&1)
 echo "$out" | tail -4
 echo "$out" | grep -q "^CONFIRMED" || { echo "not importing $prop-$n"; exit 1; }
-d=/verif/seeded/$prop-$n
+d=/verif/seeded/$prop-$outn
 mkdir -p "$d/demo"
 cp "$wt/patch$n.diff" "$d/patch.diff"
 cp -r "$wt/demo$n/." "$d/demo/"
